@@ -65,9 +65,11 @@ func c14Users(thorough bool) []string {
 }
 
 func c14Passwords(thorough bool) []string {
-	ps := []string{"p1", "", c14Long}
+	// "a\u0301\u00a0z": not in NFC and with a non-ASCII space, i.e. different from every
+	// "prepared" (PRECIS OpaqueString) form of itself: passwords are compared as given
+	ps := []string{"p1", "", c14Long, "a\u0301\u00a0z"}
 	if thorough {
-		ps = append(ps, "p2", "pässwörd✓")
+		ps = append(ps, "p2", "pässwörd✓", "\u00e1 z")
 	}
 	return ps
 }
@@ -294,7 +296,7 @@ func TestVerifC14(t *testing.T) {
 	defer r.Finish()
 	thorough := vx.Thorough()
 	users, passwords := c14Users(thorough), c14Passwords(thorough)
-	r.Rule("explicit-state BFS over account operations {create (bcrypt, argon2, default), set-password, delete} x user spellings (case, fullwidth, NFC/NFD) x passwords (incl. empty, 73 bytes, non-ASCII) on the real pass_table module over an in-memory mutable table; successor = fresh module + replay of the operation history + one operation; state = reference credential map; after every transition every spelling x password is authenticated at table level and through the real SASL layer (PLAIN and LOGIN driven via the sasl.Server interface) under 6 auth_map / normalisation configurations and compared with the reference (map applied once, identity equal for both mechanisms, foreign authorization identity refused)")
+	r.Rule("explicit-state BFS over account operations {create (bcrypt, argon2, default), set-password, delete} x user spellings (case, fullwidth, NFC/NFD) x passwords (incl. empty, 73 bytes, non-ASCII) on the real pass_table module over an in-memory mutable table; successor = fresh module + replay of the operation history + one operation; state = reference credential map; every transition is also taken after a login attempt (in the first two levels: every successful spelling and one failing attempt per account; deeper: those on the account a following password change or deletion addresses); after every transition every spelling x password is authenticated at table level and through the real SASL layer (PLAIN and LOGIN driven via the sasl.Server interface) under 6 auth_map / normalisation configurations and compared with the reference (map applied once, identity equal for both mechanisms, foreign authorization identity refused)")
 	r.Assume("bcrypt work factor lowered to the minimum through a build-time patch of the cost constant (the property does not depend on it)")
 	if rp := r.Replay(); rp != nil {
 		var c c14Case
@@ -348,7 +350,22 @@ func TestVerifC14(t *testing.T) {
 				for _, o := range h {
 					refH.apply(o)
 				}
-				for _, pre := range c14PreLogins(refH, users) {
+				pres := c14PreLogins(refH, users)
+				if len(h) > 1 {
+					// beyond the first two levels: only login attempts on the account that a
+					// following password change or deletion addresses
+					var keep []c14Op
+					if op.Kind == "set" || op.Kind == "delete" {
+						ok, _ := c14Key(op.User)
+						for _, pre := range pres {
+							if pk, _ := c14Key(pre.User); pk == ok {
+								keep = append(keep, pre)
+							}
+						}
+					}
+					pres = keep
+				}
+				for _, pre := range pres {
 					hv := append(append(append([]c14Op{}, h...), pre), op)
 					av, refv, err := c14Build(hv)
 					if err != nil {
@@ -375,7 +392,9 @@ func TestVerifC14(t *testing.T) {
 				if len(ref2) > 0 {
 					r.Nontrivial(vx.JSON(cs))
 				}
-				c14Observe(r, a, ref2, cs, users, passwords, thorough)
+				// thorough tier: all spellings go through the SASL layer when the transition reaches a
+				// state for the first time; the table-level observation is always complete
+				c14Observe(r, a, ref2, cs, users, passwords, thorough && !seen[ref.canon()])
 				if idx%397 == 0 {
 					r.Sample(cs)
 				}
